@@ -39,6 +39,10 @@ def make_scratch(root, edits):
                         txt = _ast.unparse(_ast.parse(open(pth).read())) + "\n"
                         open(pth, "w").write(txt)
             continue
+        if e[0] == "@newfile":
+            with open(os.path.join(d, e[1]), "w") as fh:
+                fh.write(e[2])
+            continue
         if e[0] in TREE_TRANSFORMS:
             import ast as _ast
             srcs = {}
@@ -261,7 +265,7 @@ def run_variant(v):
         for e in v["edits"]:
             if e[0] == "@unparse_all" or e[0] in TREE_TRANSFORMS:
                 continue
-            rel = e[1] if e[0] == "@rename_locals" else e[0]
+            rel = e[1] if e[0] in ("@rename_locals", "@newfile") else e[0]
             ast.parse(open(os.path.join(d, rel)).read())
         buf = io.StringIO()
         with contextlib.redirect_stdout(buf), contextlib.redirect_stderr(buf):
